@@ -39,6 +39,7 @@ pub struct KnownFinding {
     pub property: String,
     pub class: String,
     pub site_contains: String,
+    pub site_also: Option<String>,
     pub proto: Option<String>,
     pub level_class: Option<String>,
     pub what: String,
@@ -59,6 +60,7 @@ pub fn load_known(verif_dir: &str) -> Vec<KnownFinding> {
             property: g("property").unwrap_or_default(),
             class: g("class").unwrap_or_default(),
             site_contains: g("site_contains").unwrap_or_default(),
+            site_also: g("site_also"),
             proto: g("proto"),
             level_class: g("level_class"),
             what: g("what").unwrap_or_default(),
@@ -72,6 +74,7 @@ pub fn match_known<'a>(k: &'a [KnownFinding], v: &Violation) -> Option<&'a Known
         f.property == v.prop
             && f.class == v.class
             && v.site.contains(&f.site_contains)
+            && f.site_also.as_ref().map(|x| v.site.contains(x.as_str())).unwrap_or(true)
             && f.proto.as_ref().map(|p| p == v.case.proto.name()).unwrap_or(true)
             && f.level_class.as_ref().map(|l| l == v.case.level.class()).unwrap_or(true)
     })
@@ -230,7 +233,18 @@ pub fn death_violation(prop: &str, case: &Case, class: &str, site: &str, stderr_
         })
     };
     match prop {
-        "C09" => mk(class, format!("{}/{}", leg, site)),
+        "C09" => {
+            if class == "stack_overflow" || class == "segv" {
+                // no backtrace survives a stack overflow: identify it by what was being decoded from what
+                let lv = match &case.level {
+                    crate::case::Level::Gen(n) => format!("gen:{}", n),
+                    o => o.class().to_string(),
+                };
+                mk(class, format!("{}/{}/{}", leg, lv, case.fault_kind))
+            } else {
+                mk(class, format!("{}/{}", leg, site))
+            }
+        }
         "C07" => mk(&format!("worker_death_{}", class), format!("{}/{}", leg, case.level.class())),
         _ => None,
     }
